@@ -5,44 +5,74 @@ From Verif.C16 Require Import Model Spec Proofs ProofsSafe.
 Open Scope N_scope.
 Local Arguments exec : simpl never.
 
-(* Everything that can happen: API calls, anybody changing the kernel between two of Felix's operations (this also
-   makes the starting kernel arbitrary), ApplyUpdates with any accepted choices (any failing command, any retries,
-   any resync), ApplyDeletions likewise. *)
-Inductive reach (fx : bool) : st → kernel → gmap N (meta * gset member) → Prop :=
-| r_init k0 b : reach fx (set_fix2 b init_st) k0 ∅
-| r_add s k D id m ms : reach fx s k D → reach fx (add_or_replace id m ms s) k (<[id := (m, ms)]> D)
-| r_remove s k D id : reach fx s k D → reach fx (remove_ipset id s) k (delete id D)
-| r_change s k D add id ms :
-    reach fx s k D →
-    reach fx (change_members add id ms s) k (alter (λ v, (v.1, if add then v.2 ∪ ms else v.2 ∖ ms)) id D)
-| r_resync s k D : reach fx s k D → reach fx (queue_resync s) k D
-| r_external s k k' D : reach fx s k D → reach fx s k' D
-| r_updates s k D obs budget s' k' ev :
-    reach fx s k D → apply_updates fx obs budget k s = Some (s', k', ev) → reach fx s' k' D
-| r_deletions s k D tries s' k' ev rs :
-    reach fx s k D → apply_deletions tries k s = Some (s', k', ev, rs) → reach fx s' k' D.
+(* Everything that can happen: API calls including SetFilter, anybody changing the kernel between two of Felix's
+   operations (this also makes the starting kernel arbitrary), ApplyUpdates with any accepted choices (any failing
+   command, any retries, any resync), ApplyDeletions likewise.  A = every set asked for, F = the filter. *)
+Inductive reachA (fx : bool) : st → kernel → gmap N (meta * gset member) → option (gset name) → Prop :=
+| ra_init k0 b : reachA fx (set_fix2 b init_st) k0 ∅ None
+| ra_add s k A F id m ms : reachA fx s k A F → reachA fx (add_or_replace id m ms s) k (<[id := (m, ms)]> A) F
+| ra_remove s k A F id : reachA fx s k A F → reachA fx (remove_ipset id s) k (delete id A) F
+| ra_change s k A F add id ms :
+    reachA fx s k A F →
+    reachA fx (change_members add id ms s) k (alter (λ v, (v.1, if add then v.2 ∪ ms else v.2 ∖ ms)) id A) F
+| ra_resync s k A F : reachA fx s k A F → reachA fx (queue_resync s) k A F
+| ra_filter s k A F f : reachA fx s k A F → reachA fx (set_filter f s) k A f
+| ra_external s k k' A F : reachA fx s k A F → reachA fx s k' A F
+| ra_updates s k A F obs budget s' k' ev :
+    reachA fx s k A F → apply_updates fx obs budget k s = Some (s', k', ev) → reachA fx s' k' A F
+| ra_deletions s k A F tries s' k' ev rs :
+    reachA fx s k A F → apply_deletions tries k s = Some (s', k', ev, rs) → reachA fx s' k' A F.
 
-Lemma rel_good D s s' : rel D s -> good s s' -> rel D s'.
-Proof. intros H [_ [_ G]] n. rewrite G. apply H. Qed.
+(* D = what is desired at that point: the needed part of what was asked for *)
+Definition reach (fx : bool) (s : st) (k : kernel) (D : gmap N (meta * gset member)) : Prop :=
+  ∃ A F, reachA fx s k A F ∧ D = eff A F.
 
-Lemma reach_inv fx s k D : reach fx s k D -> WF s ∧ rel D s.
+Lemma relA_good A F s s' : relA A F s -> good s s' -> relA A F s'.
 Proof.
-  induction 1 as [k0 b|s k D id m ms _ [IH1 IH2]|s k D id _ [IH1 IH2]|s k D add id ms _ [IH1 IH2]|s k D _ [IH1 IH2]
-                 |s k k' D _ IH|s k D obs budget s' k' ev _ [IH1 IH2] Hu|s k D tries s' k' ev rs _ [IH1 IH2] Hd].
-  - split; [split; simpl; intros n Hn; try (rewrite lookup_empty in Hn; by destruct Hn); set_solver|].
-    intros n. unfold wants, want_of. simpl. rewrite !lookup_empty. by destruct (n.1 =? 0).
+  intros (Hf & Ha & Ht) [_ (_ & _ & Ea & Ef & Et)]. split_and!.
+  - congruence.
+  - intros i. rewrite Ea. apply Ha.
+  - intros i v Hv. destruct (Ht i v Hv) as [p0 Hp].
+    assert (is_Some (s_all s !! main_name i)) as Hi.
+    { rewrite (Ha i), Hv. simpl. by eexists. }
+    specialize (Et _ Hi). rewrite Hp in Et. simpl in Et.
+    destruct (s_trk s' !! main_name i) as [[d q]|]; [|done]. simpl in Et. injection Et as ->. eauto.
+Qed.
+
+Lemma reachA_inv fx s k A F : reachA fx s k A F -> WF s ∧ relA A F s.
+Proof.
+  induction 1 as [k0 b|s k A F id m ms _ [IH1 IH2]|s k A F id _ [IH1 IH2]|s k A F add id ms _ [IH1 IH2]|s k A F _ [IH1 IH2]
+                 |s k A F f _ [IH1 IH2]|s k k' A F _ IH|s k A F obs budget s' k' ev _ [IH1 IH2] Hu
+                 |s k A F tries s' k' ev rs _ [IH1 IH2] Hd].
+  - split.
+    + split.
+      * intros n Hn. simpl in Hn. rewrite lookup_empty in Hn. by destruct Hn.
+      * intros n Hn. simpl in Hn. rewrite lookup_empty in Hn. by destruct Hn.
+      * intros n Hn. simpl in Hn. set_solver.
+      * split_and!; simpl.
+        -- intros n m Hn. by rewrite lookup_empty in Hn.
+        -- intros n m Hn. by rewrite lookup_empty in Hn.
+        -- intros n Hn. rewrite lookup_empty in Hn. by destruct Hn.
+    + split_and!; simpl; [done|intros; by rewrite !lookup_empty|intros i v Hv; by rewrite lookup_empty in Hv].
   - by apply api_add_or_replace.
   - by apply api_remove.
   - by apply api_change.
-  - split; [destruct IH1; split; done|]. intros n. apply IH2.
+  - by apply api_resync.
+  - by eapply api_set_filter.
   - done.
   - destruct (apply_updates_loop_safe _ _ _ _ _ _ _ _ _ Hu IH1) as (G & _ & _).
-    split; [apply G|by eapply rel_good].
+    split; [apply G|by eapply relA_good].
   - destruct (apply_deletions_safe _ _ _ _ _ _ _ Hd IH1) as (G & _ & _).
-    split; [apply G|by eapply rel_good].
+    split; [apply G|by eapply relA_good].
 Qed.
 
-Lemma events_safe_rel D s k ev : rel D s -> events_safe (wants s) k ev -> events_safe (want_of D) k ev.
+Lemma reach_inv fx s k D : reach fx s k D -> WF s ∧ ∀ n, wants s n = want_of D n.
+Proof.
+  intros (A & F & Hr & ->). destruct (reachA_inv _ _ _ _ _ Hr) as [W R]. split; [done|]. by apply relA_wants.
+Qed.
+
+Lemma events_safe_rel D s k ev :
+  (∀ n, wants s n = want_of D n) -> events_safe (wants s) k ev -> events_safe (want_of D) k ev.
 Proof. intros H. apply events_safe_ext. done. Qed.
 
 Lemma updates_safe fx s k D obs budget s' k' ev :
